@@ -20,6 +20,23 @@
 (*   FinishCountsBlocks          source count = blocks with file_size /= 0 (or the BET count), and *)
 (*                               skipped = source - extracted in usize (underflow)        F-C07-b  *)
 (* Expected(opts) is also the oracle used by Trace_Rebuild on runs of the real code.               *)
+(*                                                                                                 *)
+(* Round 4: the class of SOURCE archives is part of the model.  RFiles are the names the source's  *)
+(* (listfile) names (and that exist); RUnlisted are names that are physically in the source but    *)
+(* that its (listfile) does not name: the (listfile) itself (normal for archives written by        *)
+(* Blizzard's tools), (attributes), ordinary files.  The target's LISTING (rtlist: the names its    *)
+(* own (listfile) makes it enumerate) is state of its own, next to the contents by name (rtarget): *)
+(*   BuildCopyListfile      (listfile) is among the extracted files: copied, the target            *)
+(*                          enumerates the names of that list which it holds                       *)
+(*   BuildGenerateListfile  it is not: the builder generates one from the extracted names          *)
+(*   TargetEnumerable       the target enumerates exactly the expected names (+ its own internal   *)
+(*                          files): a target that holds every file but lists placeholder names is  *)
+(*                          not a rebuild of the source (compare reports every file as missing)    *)
+(* Deviations: BuildNoListfile (listfile strategy decided from anything but the extracted list:    *)
+(* no listfile at all), VerifyCountsListing (verify_rebuild compares the LENGTH of the two         *)
+(* listings: a generated (listfile) that names itself makes a correct rebuild fail,                *)
+(* C07-VERIFY-GENERATED-LISTFILE), FinishCountsPhysical (HET/BET source: source count = number of  *)
+(* BET entries, unlisted files are reported as skipped, C07-HETBET-COUNTS-UNLISTED).               *)
 (***************************************************************************************************)
 EXTENDS Naturals, Integers, FiniteSets
 
@@ -28,13 +45,16 @@ CONSTANTS RFiles,      \* listed names of the source
           REnc,        \* subset of RFiles: encrypted
           RSig,        \* subset of RFiles: signature files
           REmpty,      \* subset of RFiles: zero-length files
-          RHetBet      \* the source has HET/BET tables (V3/V4)
+          RHetBet,     \* the source has HET/BET tables (V3/V4)
+          RUnlisted    \* names physically in the source that its (listfile) does not name (disjoint from RFiles)
 
 RNone == "none"
+RLf   == "(listfile)"
+RInternal == {"(listfile)", "(attributes)"}    \* files an archive writer may generate by itself
 OptSet == [skipEnc : BOOLEAN, skipSig : BOOLEAN, verify : BOOLEAN, listOnly : BOOLEAN]
 
-VARIABLES rpc, ropts, rtodo, rextr, rskip, rlost, rtarget, rsum, rres
-rvars == <<rpc, ropts, rtodo, rextr, rskip, rlost, rtarget, rsum, rres>>
+VARIABLES rpc, ropts, rtodo, rextr, rskip, rlost, rtarget, rsum, rres, rtlist
+rvars == <<rpc, ropts, rtodo, rextr, rskip, rlost, rtarget, rsum, rres, rtlist>>
 
 \* the only legal reasons to leave a listed file out (parameterised: Trace_Rebuild applies them to
 \* the source recorded in each trace)
@@ -48,43 +68,59 @@ Expected(o)  == ExpectedOf(RFiles, RTok, o, REnc, RSig)
 
 RInit == /\ rpc = "start" /\ ropts \in OptSet /\ rtodo = {} /\ rextr = {} /\ rskip = {} /\ rlost = {}
          /\ rtarget = [f \in RFiles |-> RNone] /\ rsum = [source |-> 0, extracted |-> 0, skipped |-> 0] /\ rres = "running"
+         /\ rtlist = {}
 
 \* extract_files_with_metadata: get the file list
 Enumerate == /\ rpc = "start" /\ rpc' = "extract" /\ rtodo' = RFiles
-             /\ UNCHANGED <<ropts, rextr, rskip, rlost, rtarget, rsum, rres>>
+             /\ UNCHANGED <<ropts, rextr, rskip, rlost, rtarget, rsum, rres, rtlist>>
 \* deviation F-C07-a: the list holds placeholder names; none of them can be read back by name
 EnumerateAnonymous == /\ rpc = "start" /\ RHetBet /\ rpc' = "extract_anon" /\ rtodo' = RFiles
-                      /\ UNCHANGED <<ropts, rextr, rskip, rlost, rtarget, rsum, rres>>
+                      /\ UNCHANGED <<ropts, rextr, rskip, rlost, rtarget, rsum, rres, rtlist>>
 
 Skip(f) == /\ rpc = "extract" /\ f \in rtodo /\ Reason(f, ropts) # ""
            /\ rskip' = rskip \cup {f} /\ rtodo' = rtodo \ {f}
-           /\ UNCHANGED <<rpc, ropts, rextr, rlost, rtarget, rsum, rres>>
+           /\ UNCHANGED <<rpc, ropts, rextr, rlost, rtarget, rsum, rres, rtlist>>
 Extract(f) == /\ rpc = "extract" /\ f \in rtodo /\ Reason(f, ropts) = ""
               /\ rextr' = rextr \cup {f} /\ rtodo' = rtodo \ {f}
-              /\ UNCHANGED <<rpc, ropts, rskip, rlost, rtarget, rsum, rres>>
+              /\ UNCHANGED <<rpc, ropts, rskip, rlost, rtarget, rsum, rres, rtlist>>
 \* deviation: `Err(e) => { log::warn!(..); continue; }`
 ExtractReadFailContinue(f) == /\ rpc = "extract_anon" /\ f \in rtodo
                               /\ rlost' = rlost \cup {f} /\ rtodo' = rtodo \ {f}
-                              /\ UNCHANGED <<rpc, ropts, rextr, rskip, rtarget, rsum, rres>>
+                              /\ UNCHANGED <<rpc, ropts, rextr, rskip, rtarget, rsum, rres, rtlist>>
 
 Summary(src) == [source |-> src, extracted |-> Cardinality(rextr), skipped |-> src - Cardinality(rextr)]
 \* list_only: report and stop, no target
 ListOnly == /\ rpc \in {"extract", "extract_anon"} /\ rtodo = {} /\ ropts.listOnly
             /\ rsum' = Summary(Cardinality(RFiles)) /\ rpc' = "done" /\ rres' = "ok"
-            /\ UNCHANGED <<ropts, rtodo, rextr, rskip, rlost, rtarget>>
-\* rebuild_with_files: the target holds what was extracted
-Build == /\ rpc \in {"extract", "extract_anon"} /\ rtodo = {} /\ ~ropts.listOnly
-         /\ rtarget' = [f \in RFiles |-> IF f \in rextr THEN RTok[f] ELSE RNone]
-         /\ rpc' = IF ropts.verify THEN "verify" ELSE "finish"
-         /\ UNCHANGED <<ropts, rtodo, rextr, rskip, rlost, rsum, rres>>
+            /\ UNCHANGED <<ropts, rtodo, rextr, rskip, rlost, rtarget, rtlist>>
+\* rebuild_with_files: the target holds what was extracted; its listing comes from the copied or from a generated (listfile)
+BuildTo(listing) == /\ rpc \in {"extract", "extract_anon"} /\ rtodo = {} /\ ~ropts.listOnly
+                    /\ rtarget' = [f \in RFiles |-> IF f \in rextr THEN RTok[f] ELSE RNone]
+                    /\ rtlist' = listing
+                    /\ rpc' = IF ropts.verify THEN "verify" ELSE "finish"
+                    /\ UNCHANGED <<ropts, rtodo, rextr, rskip, rlost, rsum, rres>>
+\* the source's (listfile) names itself: it is one of the extracted files and is copied (ListfileOption::None + add);
+\* the names of that list which the target holds are enumerated
+BuildCopyListfile     == RLf \in rextr /\ BuildTo(rextr)
+\* it does not (or the source has none): the builder generates one from the extracted names, naming itself
+BuildGenerateListfile == RLf \notin rextr /\ BuildTo(rextr \cup {RLf})
+\* deviation (class of round-4 seed 2): the strategy is decided from something else than the extracted list (e.g. "the
+\* source has a (listfile)"): nothing is copied AND nothing is generated - the target enumerates placeholder names only
+BuildNoListfile       == RLf \notin rextr /\ RLf \in RUnlisted /\ BuildTo({})
+ListingExact == /\ rtlist \cap RFiles = {f \in RFiles : Expected(ropts)[f] # RNone}
+                /\ (rtlist \ RFiles) \subseteq RInternal
 \* verify_rebuild: expected (after the filters) against the target
-VerifyOk   == /\ rpc = "verify" /\ rtarget = Expected(ropts) /\ rpc' = "finish"
-              /\ UNCHANGED <<ropts, rtodo, rextr, rskip, rlost, rtarget, rsum, rres>>
-VerifyFail == /\ rpc = "verify" /\ rtarget # Expected(ropts) /\ rpc' = "done" /\ rres' = "err"
-              /\ UNCHANGED <<ropts, rtodo, rextr, rskip, rlost, rtarget, rsum>>
+VerifyOk   == /\ rpc = "verify" /\ rtarget = Expected(ropts) /\ ListingExact /\ rpc' = "finish"
+              /\ UNCHANGED <<ropts, rtodo, rextr, rskip, rlost, rtarget, rsum, rres, rtlist>>
+VerifyFail == /\ rpc = "verify" /\ ~(rtarget = Expected(ropts) /\ ListingExact) /\ rpc' = "done" /\ rres' = "err"
+              /\ UNCHANGED <<ropts, rtodo, rextr, rskip, rlost, rtarget, rsum, rtlist>>
+\* deviation C07-VERIFY-GENERATED-LISTFILE: the code compares the LENGTHS of the two listings first
+ListingLengthsEqual == Cardinality(rtlist) = Cardinality(RFiles \ Excluded(ropts))
+VerifyCountsListing == /\ rpc = "verify" /\ ~ListingLengthsEqual /\ rpc' = "done" /\ rres' = "err"
+                       /\ UNCHANGED <<ropts, rtodo, rextr, rskip, rlost, rtarget, rsum, rtlist>>
 \* designed summary: counted over the listed files
 Finish == /\ rpc = "finish" /\ rsum' = Summary(Cardinality(RFiles)) /\ rpc' = "done" /\ rres' = "ok"
-          /\ UNCHANGED <<ropts, rtodo, rextr, rskip, rlost, rtarget>>
+          /\ UNCHANGED <<ropts, rtodo, rextr, rskip, rlost, rtarget, rtlist>>
 \* deviation F-C07-b: the source count is the number of blocks with file_size /= 0 (classic tables)
 BlockCount == Cardinality(RFiles \ REmpty)
 FinishCountsBlocks ==
@@ -92,16 +128,29 @@ FinishCountsBlocks ==
     /\ IF BlockCount < Cardinality(rextr)
        THEN rres' = "panic" /\ UNCHANGED rsum                 \* usize underflow
        ELSE rres' = "ok" /\ rsum' = Summary(BlockCount)
-    /\ UNCHANGED <<ropts, rtodo, rextr, rskip, rlost, rtarget>>
+    /\ UNCHANGED <<ropts, rtodo, rextr, rskip, rlost, rtarget, rtlist>>
 
-DesignNext == Enumerate \/ (\E f \in RFiles : Skip(f) \/ Extract(f)) \/ ListOnly \/ Build \/ VerifyOk \/ VerifyFail \/ Finish
+\* deviation C07-HETBET-COUNTS-UNLISTED: a HET/BET source is counted over its BET entries (listed or not)
+FinishCountsPhysical ==
+    /\ rpc = "finish" /\ rpc' = "done" /\ rres' = "ok" /\ rsum' = Summary(Cardinality(RFiles \cup RUnlisted))
+    /\ UNCHANGED <<ropts, rtodo, rextr, rskip, rlost, rtarget, rtlist>>
+
+DesignNext == Enumerate \/ (\E f \in RFiles : Skip(f) \/ Extract(f)) \/ ListOnly \/ BuildCopyListfile \/ BuildGenerateListfile \/ VerifyOk \/ VerifyFail \/ Finish
 CodeNext   == (~RHetBet /\ Enumerate) \/ EnumerateAnonymous
               \/ (\E f \in RFiles : Skip(f) \/ Extract(f) \/ ExtractReadFailContinue(f))
-              \/ ListOnly \/ Build \/ VerifyOk \/ VerifyFail \/ FinishCountsBlocks
+              \/ ListOnly \/ BuildCopyListfile \/ BuildGenerateListfile \/ VerifyOk \/ VerifyFail \/ FinishCountsBlocks
+\* the code at HEAD 0bee69d on sources whose (listfile) does not name everything (round 4)
+HeadNext   == Enumerate \/ (\E f \in RFiles : Skip(f) \/ Extract(f)) \/ ListOnly \/ BuildCopyListfile \/ BuildGenerateListfile
+              \/ VerifyCountsListing \/ (ListingLengthsEqual /\ (VerifyOk \/ VerifyFail))
+              \/ (~RHetBet /\ Finish) \/ (RHetBet /\ FinishCountsPhysical)
+\* the designed machine with the listfile strategy of the seeded class
+NoLfNext   == Enumerate \/ (\E f \in RFiles : Skip(f) \/ Extract(f)) \/ ListOnly \/ BuildCopyListfile
+              \/ BuildNoListfile \/ (RLf \notin RUnlisted /\ BuildGenerateListfile) \/ VerifyOk \/ VerifyFail \/ Finish
 
 Done == rpc = "done"
 TargetExact         == (Done /\ rres = "ok" /\ ~ropts.listOnly) => rtarget = Expected(ropts)
-ListOnlyNoTarget    == (Done /\ ropts.listOnly) => rtarget = [f \in RFiles |-> RNone]
+TargetEnumerable    == (Done /\ rres = "ok" /\ ~ropts.listOnly) => ListingExact
+ListOnlyNoTarget    == (Done /\ ropts.listOnly) => (rtarget = [f \in RFiles |-> RNone] /\ rtlist = {})
 CountsTruthful      == (Done /\ rres = "ok") =>
                           /\ rsum.source = Cardinality(RFiles)
                           /\ rsum.extracted = Cardinality(RFiles \ Excluded(ropts))
